@@ -537,3 +537,22 @@ impl StandardLinearModel {
         self.to_string()
     }
 }
+
+/// Read-only accessors for the verification harness (compiled only with `--cfg rooc_verif`).
+#[cfg(rooc_verif)]
+impl StandardLinearModel {
+    /// (variables, objective offset, objective, flip flag, rows as (coefficients, rhs)).
+    #[allow(clippy::type_complexity)]
+    pub fn verif_parts(&self) -> (Vec<String>, f64, Vec<f64>, bool, Vec<(Vec<f64>, f64)>) {
+        (
+            self.variables.clone(),
+            self.objective_offset,
+            self.objective.clone(),
+            self.flip_objective,
+            self.constraints
+                .iter()
+                .map(|c| (c.coefficients.clone(), c.rhs))
+                .collect(),
+        )
+    }
+}
